@@ -1660,7 +1660,8 @@ class IndexHierarchy(IndexBase):
                             # offsets were relative to the dropped parent; make them relative to the new root
                             t.offset += target.offset
                             targets.append(t)
-                index = levels.index.__class__(labels)
+                # the new root holds the labels of the dropped root's targets: keep their index class
+                index = levels.targets[0].index.__class__(labels) #type: ignore
                 if not targets:
                     return index.rename(name)
                 levels = levels.__class__(
